@@ -12,6 +12,14 @@ CHECKS = {
   text="Bounded symbolic model checking of both copies of _split_tensor_block_recovery on an abstract flat tensor with symbolic 0<=start<=end<=numel for every original shape up to the bound; per path z3 proves ordered partition, slab/alignment/single-leading-index relations, view-only, agreement of the copies, and minimality (no decomposition into fewer valid slabs exists).",
   note="Trusted: z3 LIA with div/mod; shapes are enumerated (order<=3 dims<=3 quick, order<=4 dims<=4 thorough, samples of order 5), larger shapes are outside the claim; narrow/view are views by construction of the abstract tensor, write-through is checked concretely on the stand-in.",
   ref="DESIGN.md section 3 C15"),
+ "C14": dict(
+  text="Bounded symbolic model checking of the three copies of _distribute_buffer_sizes with symbolic block byte sizes (ties included): the explorer enumerates every ordering decided by the real sort/heap comparisons, and per path z3 proves 64-byte round-up, that the result is an LPT assignment, max-min load <= largest block, the 4/3 bound against a symbolic alternative assignment, agreement of the copies and independence from other state. Buffer layout relations are checked on concrete block shapes in the stand-in's byte-cell model and on real torch in replay.",
+  note="Trusted: z3 LIA; bounds n<=4 blocks on <=3 ranks (quick), n<=6/<=4 ranks (thorough); larger groups outside the claim; tie-breaking not prescribed; DTensor state placement is covered by C06's simulator, not here.",
+  ref="DESIGN.md section 3 C14"),
+ "C16": dict(
+  text="Bounded symbolic model checking of the real flatten/unflatten on enumerated tree skeletons with symbolic string (z3 String) and integer keys: z3 decides key equality, so distinct paths -> distinct flat keys, exact restoration of nesting/key types/leaf identity and dropping of leafless sub-dicts are proved for all key values; OptimizerModule.state_dict/load_state_dict on enumerated object graphs with symbolic tensor contents.",
+  note="Trusted: json.dumps/loads replaced by an injective invertible encoding of key lists (the documented round trip), backed by a concrete adversarial-key pass through the real json; skeleton depth<=3/leaves<=3 (quick), depth<=4/leaves<=4 (thorough); key strings of length<=4.",
+  ref="DESIGN.md section 3 C16"),
 }
 NA = {
  "C18": "the compiled step exists only as TorchDynamo/AOTAutograd output traced over real torch; it cannot be executed on symbolic tensors or translated to SMT within reach",
